@@ -52,6 +52,34 @@ def gen_doc_cases(ctx, maxn, maxpath, rich, tag):
     return recs
 
 
+GEN_CFG = """SPECIFICATION Spec
+CONSTANTS
+  MUT = %s
+  MUTMOD = %d
+  MUTLEN = %d
+  MUTSEED = %d
+INVARIANT GenLexAgree
+INVARIANT KeyAgree
+INVARIANT LayoutAgree
+INVARIANT Emit
+CHECK_DEADLOCK FALSE
+"""
+
+
+def gen_lex_cases(ctx, mut, mutmod, mutlen, tag):
+    """MCTomlGen: every spelling of every abstract value in document templates (+ mutants); the model also
+    checks the generator against the recogniser."""
+    texts = []
+    r = ctx.tlc("MCTomlGen", GEN_CFG % ("TRUE" if mut else "FALSE", mutmod, mutlen, ctx.seed % 1000), tag=tag, workers=8, timeout=7200,
+                on_json=lambda o: texts.append(o))
+    kinds = {}
+    for t in texts:
+        kinds[t["kind"]] = kinds.get(t["kind"], 0) + 1
+    log("MCTomlGen %s: %d distinct states, %d texts %s, %.1fs" % (tag, r.distinct, len(texts), kinds, r.wall))
+    ctx.extra.setdefault("tomlgen_models", []).append({"tag": tag, "distinct_states": r.distinct, "texts_by_kind": kinds})
+    return [{"id": "%s#%s%d" % (tag, t["kind"], i), "text": t["text"]} for i, t in enumerate(texts)]
+
+
 def inputs(ctx, h, which):
     """Build the input texts of this run; returns list of (tag, path-to-texts.ndjson)."""
     out = []
@@ -65,6 +93,12 @@ def inputs(ctx, h, which):
         per, maxlen = (30, 150) if ctx.quick else (400, 400)
         ctx.harness(h, ["gen-mutants", "--in", corpus, "--per", per, "--seed", ctx.seed, "--maxlen", maxlen, "--out", mp])
         out.append(("mutants", mp))
+    if "gen" in which:
+        tag = "gen"
+        recs = gen_lex_cases(ctx, True, 401 if ctx.quick else 151, 22 if ctx.quick else 48, tag)
+        p = ctx.path(tag + ".ndjson")
+        core.write_ndjson(p, recs)
+        out.append((tag, p))
     if "doc" in which:
         if ctx.prop == "C09":
             models = [(3, 3, False, "doc-n3p3"), (2, 3, True, "doc-n2p3r")] if ctx.quick else \
